@@ -8,6 +8,22 @@ def rtl_spec(key):
   for sp in rtl_specs():
     if sp.key==key: return sp
   raise KeyError(key)
+def zoo_extra(checks,families):
+  def f(prop,tier,seed,repo,reg,known):
+    from zoo.run import run
+    return run(checks,families,repo,seed,tier)
+  return f
+def c01_extra(prop,tier,seed,repo,reg,known):
+  """C01: the fixed-point clause proved per library configuration by rtlvc (fixpoint:: obligations only) + zoo agreement stand-in."""
+  from .rtl_run import run_specs
+  res=run_specs(rtl_specs(),tier,repo)
+  for r in res:
+    r['obligations']=[o for o in r['obligations'] if o['kind'] in('fixpoint',)]
+  from zoo.run import run
+  return res+run(['sim'],['A','C','M'],repo,seed,tier)
+def c02_extra(prop,tier,seed,repo,reg,known): return zoo_extra(['dag','sched'],['A','B','C','M'])(prop,tier,seed,repo,reg,known)
+def c07_extra(prop,tier,seed,repo,reg,known): return zoo_extra(['flip','fforder','sim'],['C'])(prop,tier,seed,repo,reg,known)
+def c11_extra(prop,tier,seed,repo,reg,known): return zoo_extra(['sim','dag'],['B'])(prop,tier,seed,repo,reg,known)
 def rtl_extra(prop,tier,seed,repo,reg,known):
   from .rtl_run import run_specs
   return run_specs([sp for sp in rtl_specs() if prop in sp.prop_ids],tier,repo)
@@ -54,4 +70,25 @@ PROPERTIES={
    claim="Proof per type shape, for all field values (symbolic, unbounded): the generated to_bits / from_bits / __eq__ / __hash__ / clone / __deepcopy__ / @= / <<= / _flip / __init__ of every enumerated bitstruct shape (13 core shapes incl. nested structs, multi-dimensional lists, list-of-struct-in-struct, 1-element lists, 512+511-bit fields, a field named 's'; thorough adds 60 seeded random shapes) meet contracts generated from the statement's layout (first field most significant, list element 0 least significant): packed value and width, from_bits inverse of to_bits, equality iff packed values equal, hashing total, copies equal and sharing no leaf object with the source, @= / <<= copy leaf values into the destination's own objects (frame: nothing else changes). The text verified is the source the real generator emitted (captured by wrapping _create_fn from /verif).",
    note="Shapes are enumerated (a template bug that only shows at nesting depth >= 3 or list rank >= 3 is outside the quick bound); values are not. The generator functions themselves (string templates) are not under contract. Assumes distinct arguments do not alias (x @= x excluded). concat is used through its contract, which is proved for arity <= 5 and assumed beyond.",
    assumptions=["self and other are distinct objects without shared leaves","leaf widths are the declared ones (type invariant)"]),
+ 'C01': dict(level='other', engine='rtlvc',
+   claim="Mixed. Proved (rtlvc, per library configuration, all states and inputs): for every stdlib design under C17/C19/C20 the settled state is a fixed point - re-running any update block or net block after evaluation changes no signal. Bounded stand-in (labelled bounded, not proved): on the design zoo (families A and C of zoo/designs.py, 214 designs: whole/slice/field/nested writers x readers x net forwarding x predecessor blocks; register designs) every scheduling pass group (default/dynamic, simple with 4 tie-break seeds, heuristic-topological, Mamba2020, unrolled) yields identical values of all signals after every evaluation and tick on seeded random inputs, and re-running any block changes nothing.",
+   note="The schedulers' own code (Kahn loops) is not yet under a discharged contract (see DESIGN.md section 6 C01): agreement across schedules is therefore bounded evidence, not proof. Trusted: AstHelper read/write extraction.",
+   explanation="fixed-point obligations are discharged symbolically per configuration by rtlvc; schedule independence is checked natively on an exhaustively enumerated design zoo (bounded)",
+   extra=['contracts:c01_extra'], require_cover=False,
+   assumptions=["block footprints as extracted by AstHelper are the real ones; blocks are deterministic"]),
+ 'C02': dict(level='other',
+   claim="Mixed. Proved: Connectable._overlap decides bit-overlap of two index/slice ranges exactly (all integers). Bounded stand-in: on the design zoo (262 designs incl. struct fields, nested fields, overlapping slices, net forwarding, cycles, registers) GenDAGPass orders every writer block/net step before every block that reads an overlapping bit (bit ranges computed independently from the signal objects), constraint_objs covers the communicated bits, and every scheduler (dynamic; simple with 6 seeds; heuristic-topological) places each block exactly once and respects every constraint.",
+   note="GenDAGPass._process_value_constraints and the Kahn loops are not yet under discharged contracts; method constraints, WrapGreenletPass and OpenLoopCLPass are not covered. Labelled bounded.",
+   explanation="one small function proved deductively; the pass-level contract is evaluated natively on an enumerated design zoo (bounded)",
+   extra=['contracts:c02_extra'], require_cover=False, assumptions=["AstHelper read/write extraction"]),
+ 'C07': dict(level='other',
+   claim="Mixed. Proved (all widths/values; all enumerated struct shapes): Bits.__ilshift__ writes only the shadow value (_next) with exactly the accepted range and leaves the visible value alone, Bits._flip commits exactly the last assigned value, and the generated bitstruct __ilshift__/_flip do the same leaf by leaf without aliasing the source. Bounded stand-in: on the register family of the design zoo the generated double-buffer function flips exactly the signals written with <<= (each once), register traces are identical for every order of the update_ff blocks and every pass group, and equal a pre-edge reference model.",
+   note="schedule_posedge_flip / collect_ff_funcs / lock_in_simulation are checked only through their effect on zoo designs (bounded), not by discharged contracts.",
+   explanation="double-buffer primitives proved deductively; tick composition checked natively on an enumerated zoo (bounded)",
+   extra=['contracts:c07_extra'], require_cover=False, assumptions=["user code does not rebind signals with plain '=' at simulation time"]),
+ 'C11': dict(level='other', bounded_only=True,
+   claim="Bounded stand-in only (no obligation is proved for this property): on the cyclic family of the design zoo (20 designs: false loops through disjoint slices and struct fields, convergent true loops, two signals between the same pair of blocks, 3-block rings; with and without a predecessor block fixing the entry point; both definition orders) the cycle-capable schedulers (dynamic, Mamba2020) return only fixed points (re-running any block changes nothing), false loops agree across schedulers, schedulers without cycle support reject the design, and the constraint objects cover every communicated bit (so every bit carrying the cycle is watched). Inputs: seeded random, including one-input-at-a-time histories.",
+   note="The generated SCC wrapper and the watched-set computation are not under discharged contracts. Labelled bounded.",
+   explanation="executable statement of the property evaluated natively on an exhaustively enumerated family of cyclic designs",
+   extra=['contracts:c11_extra'], require_cover=False, assumptions=[]),
 }
